@@ -268,25 +268,52 @@ def NewFrom(recs: "Seq[ProvRecord]", start: "int") -> "bool":
 
 
 @contract("prov.model.ProvBundle.__init__", props=["C09", "C12", "C18"])
-def ProvBundle_init(self: "ProvBundle", records: "none" = None, identifier: "Opt[QN]" = None,
+def ProvBundle_init(self: "ProvBundle", records: "Opt[Seq[ProvRecord]]" = None, identifier: "Opt[QN]" = None,
                     namespaces: "Opt[Seq[Ns]]" = None, document: "Opt[ProvDocument]" = None) -> "none":
-    note("verified for records=None; with records the constructor runs the same loop as ProvBundle.update "
-         "(for record in records: self.add_record(record)), which is under contract there")
+    note("records: any iterable of records is modelled as the list of its elements")
     requires("identifier", identifier is None or QNameOK(identifier))
     requires("namespaces", NamespacesArgOK(namespaces))
     requires("document", document is None or (NSM_Local(document._namespaces) and document._namespaces.parent is None
                                                and allocated(document._namespaces)))
     requires("self-allocated", allocated(self))
     requires("document-is-another-object", document is None or document != self)
+    requires("records", records is None or SourcesOK(the(records)))
+    axiom("appending one element to a list (length, last and earlier positions)", seq_snoc_lemma("ProvRecord"))
+    uses("prov.model.ProvBundle.add_record", "fresh", "appended", "same-record-key", "existing-records-untouched", "bundle-inv",
+         "nf", "belongs-here", "source-unchanged")
     allocates("NamespaceManager")
+    allocates("ProvRecord", when=records is not None)
     modifies(self, "_identifier", "_records", "_id_map", "_document", "_namespaces")
+    raises(ProvException, when=records is not None)
+    raises(ValueError, when=records is not None)
+    raises(TypeError, when=records is not None)
+    invariant("L1", "fields", same(self._identifier, identifier) and same(self._document, document))
+    invariant("L1", "own-fresh-manager", fresh(self._namespaces))
+    invariant("L1", "manager-parent", same(self._namespaces.parent, document._namespaces if document is not None else None))
+    invariant("L1", "index", Idx(self))
+    invariant("L1", "namespaces-inv", NSM_Inv(self._namespaces))
+    invariant("L1", "records-allocated", RecordsAllocated(self))
+    invariant("L1", "records-attrs-wf", RecordsAttrsWF(self))
+    invariant("L1", "records-formal-single", RecordsFormalSingle(self))
+    invariant("L1", "records-stored-ok", RecordsStoredOK(self))
+    invariant("L1", "records-keys-ok", RecordsKeysOK(self))
+    invariant("L1", "count", seq_len(self._records) == _i)
+    invariant("L1", "copied", CopiedUpTo(self._records, 0, the(records), _i))
+    invariant("L1", "new-records-fresh", NewFrom(self._records, 0))
+    invariant("L1", "sources-untouched", AllocatedUntouched())
     ensures("fields", same(self._identifier, identifier) and same(self._document, document))
     ensures("own-fresh-manager", fresh(self._namespaces))
     ensures("manager-parent", same(self._namespaces.parent, document._namespaces if document is not None else None))
     ensures("index", Idx(self))
     ensures("namespaces-local-inv", NSM_Local(self._namespaces))
-    ensures("no-records", seq_len(self._records) == 0)
-    ensures("nothing-handed-out", InvHanded(self._namespaces))
+    ensures("no-records", implies(records is None, seq_len(self._records) == 0))
+    ensures("nothing-handed-out", implies(records is None, InvHanded(self._namespaces)))
+    # C09 / C12 / C18: construction from records = content-equal, new record objects in the same order
+    ensures("records-copied", implies(records is not None and seq_len(the(records)) > 0,
+                                      seq_len(self._records) == seq_len(the(records))
+                                      and CopiedUpTo(self._records, 0, the(records), seq_len(the(records)))
+                                      and NewFrom(self._records, 0)))
+    ensures("sources-untouched", AllocatedUntouched())
 
 
 @spec
@@ -373,18 +400,27 @@ def BundleOf(d: "ProvDocument", b: "ProvBundle", u: "str") -> "bool":
             and Idx(b) and NSM_Local(b._namespaces))
 
 
-@contract("prov.model.ProvDocument.__init__", props=["C09", "C12"])
-def ProvDocument_init(self: "ProvDocument", records: "none" = None, namespaces: "Opt[Seq[Ns]]" = None) -> "none":
-    note("verified for records=None (see ProvBundle.__init__)")
+@contract("prov.model.ProvDocument.__init__", props=["C09", "C12", "C18"])
+def ProvDocument_init(self: "ProvDocument", records: "Opt[Seq[ProvRecord]]" = None, namespaces: "Opt[Seq[Ns]]" = None) -> "none":
     requires("namespaces", NamespacesArgOK(namespaces))
     requires("self-allocated", allocated(self))
+    requires("records", records is None or SourcesOK(the(records)))
     allocates("NamespaceManager")
+    allocates("ProvRecord", when=records is not None)
     modifies(self, "_identifier", "_records", "_id_map", "_document", "_namespaces", "_bundles")
+    raises(ProvException, when=records is not None)
+    raises(ValueError, when=records is not None)
+    raises(TypeError, when=records is not None)
     ensures("own-fresh-manager", fresh(self._namespaces))
-    ensures("no-records", seq_len(self._records) == 0)
+    ensures("no-records", implies(records is None, seq_len(self._records) == 0))
     ensures("no-bundles", forall(lambda u: not qm_has(self._bundles, u), "str"))
     ensures("doc-inv", DocInv(self))
-    ensures("nothing-handed-out", InvHanded(self._namespaces))
+    ensures("nothing-handed-out", implies(records is None, InvHanded(self._namespaces)))
+    ensures("records-copied", implies(records is not None and seq_len(the(records)) > 0,
+                                      seq_len(self._records) == seq_len(the(records))
+                                      and CopiedUpTo(self._records, 0, the(records), seq_len(the(records)))
+                                      and NewFrom(self._records, 0)))
+    ensures("sources-untouched", AllocatedUntouched())
 
 
 @contract("prov.model.ProvDocument.bundle", props=["C09", "C12"])
